@@ -211,13 +211,17 @@ pub fn ball_pivot_with_centers_2d(
         // the last ball contact point is the one we choose to pivot on
         let mut best: Option<PivotPoint> = None;
         for (ni, _) in neighbors.iter() {
-            // We want to skip the neighbor two elements back, because that's the one we just came
-            // from, and it will otherwise have a perfect intersection at 0 degrees.
-            if results.len() >= 2 && *ni == results[results.len() - 2] {
-                continue;
-            }
+            // The neighbor two elements back is the one we just came from: the ball still touches it
+            // where it is now, and that contact (an intersection at 0 degrees) is not a pivot. Its
+            // other intersection is a legitimate candidate: skipping the neighbor altogether lets
+            // the ball roll through it.
+            let came_from = results.len() >= 2 && *ni == results[results.len() - 2];
+            let current_center = points[working_index] + direction * radius;
 
             for pi in circles[working_index].intersections_with(&circles[*ni]) {
+                if came_from && (pi - current_center).norm() < 1e-6 * radius {
+                    continue;
+                }
                 let di = pi - points[working_index];
                 let angle = directed_angle(&direction, &di, pivot_direction);
                 if angle < 1e-6 {
